@@ -12,6 +12,7 @@ Pipeline of both checks (DESIGN.md 3.5, BUILDING.md):
 import json
 import os
 import random
+import re
 import time
 
 import vlib
@@ -97,6 +98,25 @@ def index_cases(lines):
 
 def validate(prop, lines, nproc=4, timeout=900):
     return vlib.validate_traces(FAM[prop]["obs"], FAM[prop]["obs"] + ".cfg", lines, nproc=nproc, timeout=timeout, stack="128m")
+
+
+_RE_BAD = re.compile(r'<<\s*"BAD"\s*,(.*?)>>', re.S)
+
+
+def bad_tuples(res):
+    """Every <<"BAD", case id, line, reason, ...>> of the validation runs.  TLC pretty-prints a long tuple over several lines, which
+    vlib's one-line parser does not see, so the tuples are re-read from the raw output here."""
+    out, seen = [], set()
+    for run in res["runs"]:
+        for m in _RE_BAD.finditer(run.stdout):
+            try:
+                t = tuple(json.loads("[" + m.group(1).strip() + "]"))
+            except Exception:
+                raise Inconclusive("unreadable BAD tuple in TLC output: " + m.group(0)[:300])
+            if t not in seen:
+                seen.add(t)
+                out.append(t)
+    return out
 
 
 def sample_cases(cases, limit, rnd):
@@ -249,7 +269,7 @@ def c17(tier, repo=None, only_cases=None):
     idx = index_cases(lines)
     if len(idx) != len(cases):
         raise Inconclusive("C17: %d cases sent, %d cases observed" % (len(cases), len(idx)))
-    bad = [(b[0], b[2]) for b in res["bad"]]
+    bad = [(b[0], b[2]) for b in bad_tuples(res)]
     harness_bad = [b for b in bad if b[1] in ("unknown-observation", "line-outside-a-case", "case-not-closed-by-an-end-line", "trace-ends-inside-a-case")]
     if harness_bad:
         raise Inconclusive("C17: malformed observation trace: %s" % harness_bad[:3])
@@ -262,7 +282,7 @@ def c17(tier, repo=None, only_cases=None):
         again = [by_id[cid] for cid, _ in bad[:300]]
         lines2, _, _, _ = run_cases(again)
         res2 = validate(prop, lines2)
-        bad2 = {(b[0], b[2]) for b in res2["bad"]}
+        bad2 = {(b[0], b[2]) for b in bad_tuples(res2)}
         idx2 = index_cases(lines2)
         for cid, reason in bad[:300]:
             if (cid, reason) in bad2:
@@ -297,7 +317,8 @@ def c17(tier, repo=None, only_cases=None):
            "exhaustive": exhaustive, "model_runs": model_runs, "families": gen_stats, "observation_lines": len(lines),
            "trace_validation_states": res["states"], "distinct_schedules": len(orders), "schedule_not_forced": unforced,
            "process_crashes": crashes, "rejected_cases": len(bad), "confirmed": len(confirmed), "known_findings": n_known}
-    vlib.write_evidence(prop, tier, "model_checking", cov, assumptions=[
+    if only_cases is None:
+      vlib.write_evidence(prop, tier, "model_checking", cov, assumptions=[
         "tools are the harness's deterministic functions name(args); a streaming tool yields 1-2 chunks; arguments are distinct per call",
         "a panic of the first (inline) tool when ToolsNode is called outside a graph reaches the caller by construction: not judged",
         "with several failing tools the error of any one of them is accepted; the error is identified by errors.As or by its text",
@@ -427,8 +448,8 @@ def c18(tier, repo=None, only_cases=None):
     idx = index_cases(lines)
     if len(idx) != len(cases):
         raise Inconclusive("C18: %d cases sent, %d cases observed" % (len(cases), len(idx)))
-    bad = [(b[0], b[2]) for b in res["bad"]]
-    modes = {(b[0], b[2]): (b[3] if len(b) > 3 else "") for b in res["bad"]}
+    bad = [(b[0], b[2]) for b in bad_tuples(res)]
+    modes = {(b[0], b[2]): (b[3] if len(b) > 3 else "") for b in bad_tuples(res)}
     harness_bad = [b for b in bad if b[1] in ("unknown-observation", "line-outside-a-case", "case-not-closed-by-an-end-line", "trace-ends-inside-a-case")]
     if harness_bad:
         raise Inconclusive("C18: malformed observation trace or hanging agent: %s" % harness_bad[:3])
@@ -439,7 +460,7 @@ def c18(tier, repo=None, only_cases=None):
         again = [by_id[cid] for cid, _ in bad[:300]]
         lines2, _ = run_cases(again)
         res2 = validate(prop, lines2)
-        bad2 = {(b[0], b[2]) for b in res2["bad"]}
+        bad2 = {(b[0], b[2]) for b in bad_tuples(res2)}
         idx2 = index_cases(lines2)
         for cid, reason in bad[:300]:
             if (cid, reason) in bad2:
@@ -469,7 +490,8 @@ def c18(tier, repo=None, only_cases=None):
                    "against spec/ReActObs.tla; distinct = distinct (script, rd, MaxStep, modifier, checker, chunking); non-trivial = " + c18_nontrivial.__doc__,
            "exhaustive": exhaustive, "model_runs": model_runs, "families": gen_stats, "observation_lines": len(lines),
            "trace_validation_states": res["states"], "rejected_cases": len(bad), "confirmed": len(confirmed), "known_findings": n_known}
-    vlib.write_evidence(prop, tier, "model_checking", cov, assumptions=[
+    if only_cases is None:
+      vlib.write_evidence(prop, tier, "model_checking", cov, assumptions=[
         "the k-th model call answers script[min(k, |script|)]; tools are the deterministic functions name(args), never failing",
         "default step limit = number of nodes + 10 as documented at AgentConfig.MaxStep (12, and 13 when a return-directly set adds the direct-return node)",
         "content-before-tool-call chunkings are only used with a custom whole-stream StreamToolCallChecker: the default first-chunk checker is "
